@@ -115,6 +115,78 @@ def build(run):
     for cls in eq_classes:
         ast_eq(cls)
 
+    # ------------------------------------------------------------------ (ia) __eq__ reads every field that __repr__ prints
+    REPR_ONLY_OK = {
+        ("ScalarValue", "__class__"): "type is compared through isinstance/type checks", ("RealValue", "__class__"): "same",
+        ("Variable", "_ufl_class_"): "class name only", ("FixedIndex", "_value"): "read through int(self)",
+        ("FunctionSpace", "_label"): "equality goes through _ufl_hash_data_ (label, domain, element): decided by field-perturbation/FunctionSpace",
+        ("FunctionSpace", "_ufl_domain"): "same", ("FunctionSpace", "_ufl_element"): "same",
+    }
+
+    def find_attr(cls, name):
+        for k in cls.__mro__:
+            if name in k.__dict__:
+                return k.__dict__[name]
+        return None
+
+    def self_attrs(fn, cls, depth=1):
+        try:
+            tree = ast.parse(textwrap.dedent(inspect.getsource(fn)))
+        except (OSError, TypeError):
+            return None
+        fd = tree.body[0]
+        if not fd.args.args:
+            return set()
+        me = fd.args.args[0].arg
+        out = {n.attr for n in ast.walk(fd) if isinstance(n, ast.Attribute) and isinstance(n.value, ast.Name) and n.value.id == me}
+        if any(isinstance(n, ast.Call) and isinstance(n.func, ast.Name) and n.func.id == "repr" and n.args and isinstance(n.args[0], ast.Name) and n.args[0].id == me
+               for n in ast.walk(fd)):
+            out.add("<repr(self)>")
+        if depth:
+            for a in list(out):
+                m = find_attr(cls, a)
+                sub = self_attrs(m, cls, 0) if inspect.isfunction(m) else self_attrs(m.fget, cls, 0) if isinstance(m, property) and m.fget else None
+                if sub:
+                    out |= sub
+        return out
+
+    def eq_covers_repr(cls):
+        def thunk():
+            eq, rp = find_attr(cls, "__eq__"), find_attr(cls, "__repr__")
+            if issubclass(cls, ufl.form.BaseForm) and not issubclass(cls, C.Expr):
+                eq = find_attr(cls, "equals")       # BaseForm.__eq__ builds an Equation; bool(a == b) delegates to equals
+            if not inspect.isfunction(eq) or not inspect.isfunction(rp):
+                return proved("n/a", sample=f"{cls.__name__}: no python-level __eq__/__repr__ pair")
+            ae, ar = self_attrs(eq, cls), self_attrs(rp, cls)
+            if ae is None or ar is None:
+                return undecided(f"{cls.__name__}: no source")
+            if "<repr(self)>" in ae:
+                return proved("ast", sample=f"{cls.__name__}.__eq__ compares repr strings")
+            if "_repr" in ar:
+                init = find_attr(cls, "__init__")
+                for k in cls.__mro__:
+                    f_ = k.__dict__.get("__init__")
+                    if inspect.isfunction(f_) and "_repr" in inspect.getsource(f_):
+                        tree = ast.parse(textwrap.dedent(inspect.getsource(f_)))
+                        me = tree.body[0].args.args[0].arg
+                        for node in ast.walk(tree):
+                            if isinstance(node, ast.Assign) and ast.unparse(node.targets[0]) == f"{me}._repr":
+                                ar |= {n.attr for n in ast.walk(node.value) if isinstance(n, ast.Attribute) and isinstance(n.value, ast.Name) and n.value.id == me}
+                        break
+                ar.discard("_repr")
+                del init
+            data = {a for a in ar if not inspect.isroutine(find_attr(cls, a)) and not isinstance(find_attr(cls, a), property) and a != "<repr(self)>"}
+            missing = sorted(a for a in data - ae if (cls.__name__, a) not in REPR_ONLY_OK)
+            if missing:
+                return violated(f"{cls.__name__}.__repr__ prints {missing} but {cls.__name__}.__eq__ never reads them: two objects differing only there compare equal "
+                                f"with different repr", replay={"class": cls.__name__, "fields": missing}, reproduced=False, backend="ast")
+            return proved("ast", vcs=max(len(data), 1), sample=f"{cls.__name__}: every field printed by __repr__ ({sorted(data)}) is read by __eq__")
+        run.add(f"ast-eq-covers-repr/{cls.__name__}", thunk, kind="proof")
+    for cls in [C.Constant, C.Coefficient, C.Argument, C.Zero, C.ScalarValue, C.IntValue, C.RealValue, C.ComplexValue, C.Identity, C.PermutationSymbol, C.MultiIndex, C.Variable,
+                C.GeometricQuantity, ufl.core.multiindex.Index, ufl.core.multiindex.FixedIndex, ufl.integral.Integral, ufl.measure.Measure, ufl.Mesh, ufl.FunctionSpace,
+                C.Cofunction, C.Coargument, C.Matrix, C.ExternalOperator, C.Interpolate]:
+        eq_covers_repr(cls)
+
     # ------------------------------------------------------------------ (ii) differential field perturbation
     def V(msh=tri, el=P1, label=""):
         return FunctionSpace(msh, el, label) if label else FunctionSpace(msh, el)
@@ -162,12 +234,13 @@ def build(run):
                 pass
             if repr(a0) != repr(a1):
                 return violated(f"{cname}: equal objects have different repr", replay={"class": cname, "fields": repr(base)}, reproduced=True)
-            for fld, vals in fields.items():
+            bases = [base, {k: (vs[1] if len(vs) > 1 else vs[0]) for k, vs in fields.items()}]
+            for base_, (fld, vals) in itertools.product(bases, fields.items()):
                 for v0, v1 in itertools.combinations(vals, 2):
                     try:
-                        x = ctor(**{**base, fld: v0})
-                        y = ctor(**{**base, fld: v1})
-                    except (ValueError, TypeError, AssertionError):
+                        x = ctor(**{**base_, fld: v0})
+                        y = ctor(**{**base_, fld: v1})
+                    except (ValueError, TypeError, AssertionError, KeyError, IndexError):
                         continue
                     n += 1
                     if x is y:
